@@ -92,7 +92,7 @@ def ocaml_volume(c, n):
 
 
 def recipe(c: Check):
-    c.build(["Properties/C17.vo", "Corr/C17.vo", "Corr/C17Sys.vo"], harness=["c17"], units=["t1", "t8a"])
+    c.build(["Properties/C17.vo", "Corr/C17.vo", "Corr/C17Sys.vo", "Corr/C17Dgram.vo"], harness=["c17"], units=["t1", "t8a"])
     c.obligations("C17")
     st = c.run_driver("codec", q(c.tier, 1500, 24000), shards=q(c.tier, 8, 16),
                       extra=os.path.join(V, "golden/msg_vectors.txt"))
@@ -106,6 +106,9 @@ def recipe(c: Check):
         need_counters(c, "firstbytes", ["NCLOSENOW", "NCLOSETIMEOUT", "NKEEPOPEN", "NTLSFAIL", "NTLSINNER", "NDISPATCHED"])
     if c.run_driver("readloop", q(c.tier, 80, 1500), shards=q(c.tier, 2, 8)):
         need_counters(c, "readloop", ["NENDFRAME", "NENDJSON", "NENDSHORT", "NREAD"])
+    # the NAT-hole datagram decoder (second decoder of the frame format, unauthenticated input)
+    if c.run_driver("dgram", q(c.tier, 200, 6000), shards=q(c.tier, 2, 8)):
+        need_counters(c, "dgram", ["NDGSHORT", "NDGFRAMEERR", "NDGJSONERR", "NDGOK"])
     # authenticated Logins with extreme integers as first message, against a frps in a child process
     if c.run_driver("loginx", q(c.tier, 6, 150), shards=1):
         need_counters(c, "loginx", ["NLOGINX", "NBELOWSLACK"])
@@ -123,6 +126,10 @@ def recipe(c: Check):
              "timeout / kept, reply kind, session table before/after, A's heartbeat and tunnel; compared with Model.FrameSys.fs_first_step. "
              "readloop driver: a second session B receives through the token cipher valid messages followed by a malformed frame and more "
              "valid messages (batch / paced); observed replies, closure, session table, A unaffected; compared with fs_stream_step. "
+             "dgram driver: real nathole.DecodeMessageInto under recover on every datagram length 0..64 (random), every plaintext length "
+             "0..24 of a valid frame, EncodeMessage outputs (must come back equal), other registered / unknown type bytes, negative / "
+             "oversized / overlong lengths, truncated ciphertext, trailing bytes, bad JSON, wrong key, bodies at the bound; compared with "
+             "Model.Datagram.dg_decode (cipher and JSON layer as oracles). "
              "loginx driver: authenticated Login first messages with pool_count in {-1,-10,-11,-1000,MinInt32,MinInt64,MaxInt64,...} and "
              "timestamp extremes (key computed for them) against a frps in a CHILD process; observed: reply, child alive, A's heartbeat "
              "and tunnel; the handler oracle of the model is computed from the NewControl clamp translated today (T8a). "
